@@ -391,6 +391,19 @@ func runC13(r *mc.Run) {
 			_ = inner
 			it[i] = rebuilt
 			add("trailing/inside-"+k, base, world.DERSeq(it...), wantErrorOrExact)
+			// the extra member is itself an OCTET STRING — of the field's own size (other content) and of another size
+			if k == "ppid" || k == "pceid" || k == "fmspc" {
+				sub := map[string]int{"ppid": 1, "pceid": 3, "fmspc": 4}[k]
+				val := map[string][]byte{"ppid": base.PPID, "pceid": base.PCEID, "fmspc": base.FMSPC}[k]
+				for _, extra := range [][]byte{bytes.Repeat([]byte{0x5c}, len(val)), bytes.Repeat([]byte{0x5c}, len(val)+1), {}} {
+					it3 := append([][]byte(nil), items...)
+					it3[i] = world.DERSeq(oid(sub), world.DEROctet(val), world.DEROctet(extra))
+					add(fmt.Sprintf("trailing/octet-string-len%d-after-%s", len(extra), k), base, world.DERSeq(it3...), wantErrorOrExact)
+					it4 := append([][]byte(nil), items...)
+					it4[i] = world.DERSeq(oid(sub), world.DER(0x01, []byte{0xff}), world.DEROctet(val), world.DEROctet(extra))
+					add(fmt.Sprintf("trailing/critical+octet-string-len%d-after-%s", len(extra), k), base, world.DERSeq(it4...), wantErrorOrExact)
+				}
+			}
 			// raw garbage after the element inside the outer sequence
 			it2 := append([][]byte(nil), items...)
 			it2[i] = append(append([]byte(nil), items[i]...), 0x00)
